@@ -37,7 +37,8 @@ def space(tier, seed):
     depth = 3 if tier == "quick" else 4
     ch = level_choices(tier)
     cases = []
-    forms = ["plain", "dir-slash", "dotdot", "explicit", "explicit-wd"]
+    # override-slash: a leading NAME=VALUE word whose value contains `/` is an override, not a directory: like `plain`
+    forms = ["plain", "dir-slash", "dotdot", "explicit", "explicit-wd", "override-slash"]
     rng = C.case_rng(seed, 0, "c16")
     allc = list(itertools.product(ch, repeat=depth))
     total = len(allc) * depth * len(forms)
@@ -65,7 +66,7 @@ def build_tree(d, levels):
             text = 'set shell := ["%s", "-c"]\n' % C.VSH
             if lv["fallback"]:
                 text += "set fallback\n"
-            text += "other:\n  [other]\n"
+            text += "ov := 'd'\nother:\n  [other]\n"
             if lv["knows"]:
                 text += "r:\n  [L%d:%s]\n" % (k, name)
             open(os.path.join(cur, name), "w").write(text)
@@ -94,6 +95,8 @@ def run_case(c):
         elif c["form"] == "dotdot" and inv > 0:
             argv = ["../r"]
             start = inv - 1
+        elif c["form"] == "override-slash":
+            argv = [["ov=x/y", "ov=/abs/p", "ov=../", "ov=d1/"][inv % 4], "r"]
         elif c["form"] in ("explicit", "explicit-wd"):
             # explicit --justfile pointing at some level that has a (single) candidate
             cands = [k for k, lv in enumerate(c["levels"]) if len(PLACEMENTS[lv["placement"]]) >= 1]
@@ -221,7 +224,7 @@ def run(report):
     report.coverage.update({
         "evaluations": len(cases),
         "distinct_nontrivial": len(distinct),
-        "rule": "random sample of: directory chains of depth %d x per-level candidate placement {none, justfile, .justfile, JUSTFILE, .Justfile, .JUSTFILE%s, both names, both names in mixed case%s, a directory named justfile} x (knows recipe, set fallback) x invocation level x form {just r, just REL/r from an ancestor, just ../r, --justfile, --justfile + --working-directory}; distinct = distinct (case, outcome)" % (
+        "rule": "random sample of: directory chains of depth %d x per-level candidate placement {none, justfile, .justfile, JUSTFILE, .Justfile, .JUSTFILE%s, both names, both names in mixed case%s, a directory named justfile} x (knows recipe, set fallback) x invocation level x form {just r, just REL/r from an ancestor, just ../r, --justfile, --justfile + --working-directory, just NAME=a/b r}; distinct = distinct (case, outcome)" % (
             3 if tier == "quick" else 4, "", ", two case variants of one name"),
         "samples": samples,
         "traces_validated_against_impl": len(cases),
